@@ -50,7 +50,9 @@ class X(operator.Operator):
                 raise ValueError(f"Exchange matrix must be square")
             elif not all(
                 [
-                    np.allclose(khi[..., i].sum(axis=axis), 0)
+                    np.allclose(
+                        khi[..., i].sum(axis=axis), 0, atol=1e-8 * max(1.0, np.abs(khi).max())
+                    )
                     for i in range(khi.shape[-1])
                 ]
             ):
@@ -96,7 +98,10 @@ class X(operator.Operator):
         ncomp = self.shape[ax]
 
         # check khi matrix for total magnetization
-        if not xp.allclose(dotp(self.khi, sm.density[..., NAX], axes=[-1, ax]), 0):
+        # (tolerance relative to the size of the rates: fast exchange has large entries)
+        scale = max(1.0, float(xp.abs(self.khi).max()) * float(xp.abs(sm.density).max()))
+        flux = dotp(self.khi, sm.density[..., NAX], axes=[-1, ax])
+        if not xp.allclose(flux, 0, atol=1e-8 * scale):
             raise RuntimeError(
                 "Exchange matrix `khi` does not conserve total magnetization"
             )
